@@ -140,6 +140,19 @@ CHECKS = {
         design_ref="DESIGN.md section 7, C07",
         note="One spelling per AST node (layout variation is C13); the projection code in harness/src/canon.rs is trusted.",
         technique="TLA+ abstract-syntax universe with canonical projection, TLC-enumerated, compared with the real parser's model"),
+    "C09": dict(
+        category="model_checking",
+        text="Names.tla specifies the generator's identifier automata (field / module, constant, variant / type name, the generator's second "
+             "variant automaton and both keyword escapes); TLC checks on every valid ASN.1 identifier up to the length bound plus every Rust "
+             "keyword and spelling variants that the outputs are legal non-keyword Rust identifiers, and computes the collision classes; the "
+             "real functions are replayed on every identifier. rustc (cargo check of a generated crate with one asn_to_rust! per module) then "
+             "decides compilability for: every keyword as field / variant / value / type name, one module per predicted collision class, every "
+             "value-reference and DEFAULT kind x sign, named numbers and bits, inline-type naming, prelude-like names, and a stride sample of the "
+             "Grammar.tla universe. Accepted = Tokenizer, Model::try_from, try_resolve, to_rust and the generator succeed.",
+        design_ref="DESIGN.md section 7, C09",
+        note="rustc is the oracle for compilability; the specification enumerates the name space and predicts collisions. Modules inside an "
+             "open finding's class must fail with that finding's rustc error codes only.",
+        technique="TLA+ name-mangling automata checked with TLC and replayed against the real functions; TLC-enumerated modules compiled by rustc"),
     "C08": dict(
         category="model_checking",
         text="The same TLC-enumerated universe plus the repository's own test modules go through the real generator and attribute parser at run "
